@@ -303,3 +303,83 @@ package stream
 //@   props C09 C14
 //@   pure
 //@   ensures result == s.encrypted
+
+// ---- C15: crypto-state export / import -------------------------------------------------------------------------
+//@ pred be16(b, i) = b[i]*256 + b[i+1]
+//@ pred flagsOf(s) = ite(s.encrypted, 1, 0) + ite(s.authenticated, 2, 0) + ite(s.finishedSendAAD, 4, 0) + ite(s.finishedRecvAAD, 8, 0) + ite(s.sendDigestWritten, 16, 0) + ite(s.recvDigestWritten, 32, 0)
+// blobFixed(s, b): the fixed 79-byte prefix of blob b describes stream s
+//@ pred blobFixed(s, b) = len(b) >= 79 && b[0] == 67 && b[1] == 68 && b[2] == 82 && b[3] == 88 && be16(b, 4) == 1 && b[6] == flagsOf(s) && (forall i :: 0 <= i && i < 32 ==> b[7+i] == s.encryptKey[i]) && (forall i :: 0 <= i && i < 16 ==> b[39+i] == s.encryptIV[i] && b[55+i] == s.decryptIV[i]) && be32(b, 71) == s.encryptCounter && be32(b, 75) == s.decryptCounter
+//@ pred exportClean(s) = s.encrypted && s.gcm != nil && len(s.encryptKey) == 32 && s.finishedSendAAD && s.finishedRecvAAD && !s.inMessage && s.bytesRead == 0 && len(s.receiveBuffer) == 0 && len(s.sendBuffer) == 0 && !s.sendEOM
+
+//@ func (*Stream).ExportCryptoState (s) (result, err)
+//@   props C15
+//@   requires lens: len(s.finalSendDigest) <= 65535 && len(s.finalRecvDigest) <= 65535 && len(s.peerAddr) <= 65535
+//@   assigns nothing
+//@   let n1 = len(s.finalSendDigest)
+//@   let n2 = len(s.finalRecvDigest)
+//@   let n3 = len(s.peerAddr)
+//@   ensures refuse: err == nil ==> exportClean(s)
+//@   ensures accept: exportClean(s) ==> err == nil
+//@   ensures err_nodata: err != nil ==> result == nil
+//@   ensures layout_fixed: err == nil ==> blobFixed(s, result)
+//@   ensures layout_len: err == nil ==> len(result) == 79 + 2 + n1 + 2 + n2 + 2 + n3
+//@   ensures layout_trailer1: err == nil ==> be16(result, 79) == n1
+//@   ensures layout_trailer2: err == nil ==> be16(result, 81 + n1) == n2
+//@   ensures layout_trailer3: err == nil ==> be16(result, 83 + n1 + n2) == n3
+//@   ensures layout_digests: err == nil ==> (forall i :: 0 <= i && i < n1 ==> result[81 + i] == s.finalSendDigest[i]) && (forall i :: 0 <= i && i < n2 ==> result[83 + n1 + i] == s.finalRecvDigest[i]) && (forall i :: 0 <= i && i < n3 ==> result[85 + n1 + n2 + i] == s.peerAddr[i])
+//@   ensures fresh_blob: err == nil ==> fresh(result)
+
+//@ pred importedFixed(s, b) = (forall i :: 0 <= i && i < 32 ==> s.encryptKey[i] == b[7+i]) && len(s.encryptKey) == 32 && (forall i :: 0 <= i && i < 16 ==> s.encryptIV[i] == b[39+i] && s.decryptIV[i] == b[55+i]) && s.encryptCounter == be32(b, 71) && s.decryptCounter == be32(b, 75) && s.encrypted == bit(b[6], 0) && s.authenticated == bit(b[6], 1) && s.finishedSendAAD == bit(b[6], 2) && s.finishedRecvAAD == bit(b[6], 3) && s.sendDigestWritten == bit(b[6], 4) && s.recvDigestWritten == bit(b[6], 5)
+//@ pred framingEmpty(s) = !s.inMessage && s.bytesRead == 0 && s.totalMsgBytes == 0 && s.receiveBuffer == nil && s.sendBuffer == nil && !s.sendEOM && s.frameBuf == nil
+
+//@ func NewStream (conn) (result)
+//@   props C15 C12
+//@   assigns nothing
+//@   ensures fresh_stream: fresh(result) && result.conn == conn && result.reader == conn && result.writer == conn
+//@   ensures no_crypto: !result.encrypted && !result.authenticated && result.gcm == nil && result.encryptKey == nil && result.encryptCounter == 0 && result.decryptCounter == 0 && !result.finishedSendAAD && !result.finishedRecvAAD && result.finalSendDigest == nil && result.finalRecvDigest == nil && !result.sendDigestWritten && !result.recvDigestWritten
+//@   ensures digests_on: result.sendDigest != nil && result.recvDigest != nil
+//@   ensures framing_empty: framingEmpty(result)
+
+//@ func NewStreamWithCryptoState (conn, blob) (result, err)
+//@   props C15 C13
+//@   assigns nothing
+//@   alloc 2 len(blob)
+//@   let n1 = be16(blob, 79)
+//@   let n2 = be16(blob, 81 + n1)
+//@   let n3 = be16(blob, 83 + n1 + n2)
+//@   ensures reject_short: len(blob) < 79 ==> err != nil
+//@   ensures reject_magic: len(blob) >= 79 && !(blob[0] == 67 && blob[1] == 68 && blob[2] == 82 && blob[3] == 88) ==> err != nil
+//@   ensures reject_version: len(blob) >= 79 && be16(blob, 4) != 1 ==> err != nil
+//@   ensures reject_truncated: len(blob) >= 79 && (len(blob) < 81 || len(blob) < 83 + n1 || len(blob) < 85 + n1 + n2 || len(blob) < 85 + n1 + n2 + n3) ==> err != nil
+//@   ensures err_nostream: err != nil ==> result == nil
+//@   ensures restored_fixed: err == nil ==> fresh(result) && importedFixed(result, blob) && result.gcm != nil
+//@   ensures restored_digests: err == nil ==> len(result.finalSendDigest) == n1 && len(result.finalRecvDigest) == n2 && (forall i :: 0 <= i && i < n1 ==> result.finalSendDigest[i] == blob[81 + i]) && (forall i :: 0 <= i && i < n2 ==> result.finalRecvDigest[i] == blob[83 + n1 + i])
+//@   ensures restored_peer: err == nil && n3 > 0 ==> len(result.peerAddr) == n3 && forall i :: 0 <= i && i < n3 ==> result.peerAddr[i] == blob[85 + n1 + n2 + i]
+//@   ensures framing_empty: err == nil ==> framingEmpty(result)
+//@   ensures owns_storage: err == nil ==> fresh(result.encryptKey) && (n1 > 0 ==> fresh(result.finalSendDigest)) && (n2 > 0 ==> fresh(result.finalRecvDigest))
+//@   ensures no_reset: randCount == old(randCount)
+
+// import . export = identity on the crypto state (the two contracts above are stated over the same layout)
+//@ lemma export_import_inverse
+//@   props C15
+//@   var s1 *stream.Stream s2 *stream.Stream b []byte
+//@   hyp blobFixed(s1, b)
+//@   hyp importedFixed(s2, b)
+//@   concl s2.encryptCounter == s1.encryptCounter && s2.decryptCounter == s1.decryptCounter && s2.encrypted == s1.encrypted && s2.authenticated == s1.authenticated && s2.finishedSendAAD == s1.finishedSendAAD && s2.finishedRecvAAD == s1.finishedRecvAAD && s2.sendDigestWritten == s1.sendDigestWritten && s2.recvDigestWritten == s1.recvDigestWritten && (forall i :: 0 <= i && i < 32 ==> s2.encryptKey[i] == s1.encryptKey[i]) && (forall i :: 0 <= i && i < 16 ==> s2.encryptIV[i] == s1.encryptIV[i] && s2.decryptIV[i] == s1.decryptIV[i])
+//@ end
+
+// nonce injectivity: distinct counters below the refusal limit give distinct nonces for one base IV (=> no nonce reuse)
+//@ lemma nonce_injective
+//@   props C12
+//@   var base int j int k int
+//@   hyp 0 <= base && base < 4294967296 && 0 <= j && j < k && k < 4294967295
+//@   concl (base + j) % 4294967296 != (base + k) % 4294967296
+//@ end
+
+// frame header round trip: parse(hdr(e, n)) = (e, n)
+//@ lemma header_inverse
+//@   props C01
+//@   var n int b0 int b1 int b2 int b3 int
+//@   hyp 0 <= n && n < 4294967296 && b0 == n / 16777216 % 256 && b1 == n / 65536 % 256 && b2 == n / 256 % 256 && b3 == n % 256
+//@   concl b0*16777216 + b1*65536 + b2*256 + b3 == n
+//@ end
